@@ -387,7 +387,8 @@ fn check(case: &Case, run: &Run) -> Vec<Finding> {
         if let Some(r) = run.client.first("StatusPong")
             && let Ok(Pkt::StatusPong { payload }) = &r.pkt
         {
-            let sent_ping = run.client.sent.iter().any(|s| s.label == "StatusPing" || s.label.contains("StatusPing"));
+            // whatever it was labelled: a frame with packet id 1 in the status phase IS a ping
+            let sent_ping = run.client.sent.iter().skip(1).any(|s| matches!(vp_common::refcodec::split_frame(&s.plain, 1 << 22), Ok(Some((0x01, _, _)))));
             if !sent_ping {
                 bad(format!("pong-without-ping/{kind}"), "Pong although no Ping was sent".into(), json!({}));
             } else if case.kind == Kind::Baseline && *payload != case.ping {
